@@ -218,7 +218,17 @@ Quiesce(ev) == /\ ev.e = "quiesce" /\ inCall = ""
                /\ tainted \/ heap = {}
                /\ UNCHANGED mvars
 
-Step(ev) == \/ Reset(ev) \/ CallBegin(ev) \/ Alloc(ev) \/ Realloc(ev) \/ Free(ev)
+(* a writable library symbol changed during the call (reported by the global-write detector): only the globals the manual
+   documents may change, and only in the functions that own them; anything else is hidden shared state (C15) *)
+RECURSIVE HasSub(_, _, _)
+HasSub(s, sub, i) == IF i + Len(sub) - 1 > Len(s) THEN FALSE ELSE SubSeq(s, i, i + Len(sub) - 1) = sub \/ HasSub(s, sub, i + 1)
+GlobalWrite(ev) == /\ ev.e = "gw"
+                   /\ \/ HasSub(ev.sym, "__gmp_errno", 1) \/ HasSub(ev.sym, "__gmp_junk", 1)                         \* error indication / optimisation barrier
+                      \/ (HasSub(ev.sym, "__gmp_default_fp_limb_precision", 1) /\ inCall = "mpf_set_default_prec")
+                      \/ HasSub(ev.sym, "__gmpn_cpuvec", 1)                                                         \* fat binary: lazy dispatch initialisation
+                   /\ UNCHANGED mvars
+
+Step(ev) == \/ GlobalWrite(ev) \/ Reset(ev) \/ CallBegin(ev) \/ Alloc(ev) \/ Realloc(ev) \/ Free(ev)
             \/ CallEnd(ev) \/ Fn(ev) \/ HFree(ev) \/ Quiesce(ev)
 
 (* ---- invariants of the machine (checked in every state of every validated trace) ---- *)
